@@ -429,8 +429,20 @@ def run(ctx):
     np_ = prog.fn(WB + "name_pointer")
     npr = A.Resolver(np_)
     rets = [A.peel(e) for b, e in A.return_exprs(np_, npr)]
-    ctx.check(len(rets) == 1 and rets[0][0] == "call" and rets[0][1].endswith("HashMap::<K, V, S, A>::get") and A.path_str(rets[0][2][0]) == "param1.name_pointers"
-              and A.peel(rets[0][2][1]) == ("param", 2), "C04.6", "name_pointer", "name_pointers.get(name)", "name_pointer returns %s" % [A.show(x) for x in rets], np_.loc())
+    is_get = lambda x: x[0] == "call" and x[1].endswith("HashMap::<K, V, S, A>::get") and A.path_str(x[2][0]) == "param1.name_pointers" and A.peel(x[2][1]) == ("param", 2)
+    def from_get(x):
+        # the look-up itself (through .copied()), or Some(*hit) / None spelt out as a match on it
+        if is_get(x):
+            return True
+        if x[0] == "agg" and x[2] == "None":
+            return None
+        if x[0] == "agg" and x[2] == "Some":
+            v = A.peel(dict(x[3])["0"])
+            return v[0] == "field" and v[1][0] == "downcast" and v[1][2] == "Some" and is_get(A.peel(v[1][1]))
+        return False
+    verdicts = [from_get(x) for x in rets]
+    ctx.check(bool(rets) and all(v is not False for v in verdicts) and any(v is True for v in verdicts), "C04.6", "name_pointer", "name_pointers.get(name)",
+              "name_pointer returns %s" % [A.show(x) for x in rets], np_.loc())
 
     # ---------------------------------------------------------------- C04.7
     ms = prog.fn(IMPL(SER, "Message", "serialise"))
